@@ -20,6 +20,7 @@ use std::io::Write;
 
 pub mod build;
 pub mod gen;
+pub mod xplor;
 
 // --------------------------------------------------------------------------------------
 // deterministic random numbers
